@@ -453,6 +453,7 @@ func (e *env) ret(cid int, api string, res string) {
 
 func (e *env) waitJob(k int) jobHandle {
 	rt.WaitUntil("handle", func() bool { return e.added[k] != 0 })
+	rt.Sync("acq", fmt.Sprintf("job:%d", k)) // the handle was passed to this thread by the submitter
 	return e.jobs[k]
 }
 
@@ -467,6 +468,7 @@ func (e *env) exec(op Op) {
 			ref = rt.IDOf(j)
 			e.jobs[op.K] = j
 		}
+		rt.Sync("rel", fmt.Sprintf("job:%d", op.K))
 		if ok {
 			e.added[op.K] = 1
 		} else {
@@ -476,8 +478,10 @@ func (e *env) exec(op Op) {
 	case "addall":
 		c := e.call("addall", fmt.Sprintf("%d %d %s %s", op.Q, op.B, ints(op.Ks), ints(op.Prios)))
 		g := e.qs[op.Q].addAll(op.Ks, op.Prios)
+		rt.Sync("rel", fmt.Sprintf("grp:%d", op.B))
 		e.groups[op.B] = g
 		for _, k := range op.Ks {
+			rt.Sync("rel", fmt.Sprintf("job:%d", k))
 			e.added[k] = 1 // acceptance of batch items is not reported by the API
 		}
 		e.ret(c, "addall", fmt.Sprintf("%d %s", op.B, rt.IDOf(g)))
@@ -531,17 +535,20 @@ func (e *env) exec(op Op) {
 		}
 	case "gwait":
 		rt.WaitUntil("group", func() bool { return e.groups[op.B] != nil })
+		rt.Sync("acq", fmt.Sprintf("grp:%d", op.B))
 		c := e.call("gwait", fmt.Sprint(op.B))
 		e.groups[op.B].Wait()
 		e.ret(c, "gwait", fmt.Sprintf("%d %d", op.B, e.groups[op.B].NumPending()))
 	case "gpending":
 		rt.WaitUntil("group", func() bool { return e.groups[op.B] != nil })
+		rt.Sync("acq", fmt.Sprintf("grp:%d", op.B))
 		c := e.call("gpending", fmt.Sprint(op.B))
 		n := e.groups[op.B].NumPending()
 		e.ret(c, "gpending", fmt.Sprintf("%d %d", op.B, n))
 	case "gcollect":
 		// read the batch stream until it is closed
 		rt.WaitUntil("group", func() bool { return e.groups[op.B] != nil })
+		rt.Sync("acq", fmt.Sprintf("grp:%d", op.B))
 		c := e.call("gcollect", fmt.Sprint(op.B))
 		var got []string
 		switch g := e.groups[op.B].(type) {
@@ -789,6 +796,7 @@ func runPhase(p *Program, cfg rt.Config, shared *[]*adapter, first bool) *rt.Res
 			}
 		}
 		rt.WaitIdle()
+		rt.Sync("joinall", "_") // the main goroutine continues after the client threads
 		// final observations at quiescence
 		e.final(done)
 		for _, o := range others {
